@@ -33,7 +33,7 @@ if TYPE_CHECKING:
 
 
 from exabgp.bgp.message.notification import Notify
-from exabgp.bgp.message.update.attribute.aspath import SEQUENCE, SET, AS2Path
+from exabgp.bgp.message.update.attribute.aspath import CONFED_SEQUENCE, CONFED_SET, SEQUENCE, SET, AS2Path
 from exabgp.bgp.message.update.attribute.attribute import (
     Attribute,
     Discard,
@@ -597,31 +597,45 @@ class AttributeCollection(MutableMapping[int, Attribute]):
             self.add(cached, key)
             return
 
-        len2 = len(as2path.as_seq)
-        len4 = len(as4path.as_seq)
+        # RFC 6793 4.2.3, on the path segments themselves.  An AS_SET counts for one AS
+        # number and a confederation segment for none (RFC 4271 9.1.2.2, RFC 5065 5.3).
+        def count(path: AS2Path) -> int:
+            total = 0
+            for seg in path.aspath:
+                if isinstance(seg, SEQUENCE):
+                    total += len(seg)
+                elif isinstance(seg, SET):
+                    total += 1
+            return total
 
-        # RFC 4893 section 4.2.3
+        len2 = count(as2path)
+        len4 = count(as4path)
+
+        segments: list[SET | SEQUENCE | CONFED_SEQUENCE | CONFED_SET] = []
         if len2 < len4:
-            as_seq = as2path.as_seq
+            # the AS4_PATH is ignored, the AS_PATH is the path
+            segments = list(as2path.aspath)
         else:
-            as_seq = as2path.as_seq[:-len4]
-            as_seq.extend(as4path.as_seq)
-
-        len2 = len(as2path.as_set)
-        len4 = len(as4path.as_set)
-
-        if len2 < len4:
-            as_set = as4path.as_set
-        else:
-            as_set = as2path.as_set[:-len4]
-            as_set.extend(as4path.as_set)
-
-        # Build segments from merged ASN lists
-        segments: list[SET | SEQUENCE] = []
-        if as_seq:
-            segments.append(SEQUENCE(as_seq))
-        if as_set:
-            segments.append(SET(as_set))
+            # the leading (len2 - len4) AS numbers of the AS_PATH, then the AS4_PATH
+            keep = len2 - len4
+            for seg in as2path.aspath:
+                if isinstance(seg, SEQUENCE):
+                    if len(seg) <= keep:
+                        segments.append(seg)
+                        keep -= len(seg)
+                        continue
+                    if keep:
+                        segments.append(SEQUENCE(seg[:keep]))
+                    break
+                if isinstance(seg, SET):
+                    if not keep:
+                        break
+                    segments.append(seg)
+                    keep -= 1
+                    continue
+                # a confederation segment in front of, or next to, a segment which is kept
+                segments.append(seg)
+            segments.extend(as4path.aspath)
         # the merged path carries AS4_PATH's ASNs, which do not fit the 2-byte packing
         aspath = AS2Path.make_aspath(segments, asn4=True)
         self.add(aspath, key)
